@@ -347,6 +347,14 @@ func (f *Frame) havocLoop(li *loopInfo, h *Heap, reach string) {
 		case *ssa.Alloc, *ssa.MakeSlice, *ssa.MakeMap, *ssa.Convert:
 			// allocation initialises fresh rows only; handled by freshness (rows >= now are unconstrained anyway)
 		case *ssa.Next:
+			if !i.IsString {
+				if rg, ok := i.Iter.(*ssa.Range); ok {
+					if mt, ok := rg.X.Type().Underlying().(*types.Map); ok {
+						ks, _ := f.mapSorts(mt)
+						add(q("E mapvisited "+ks), fmt.Sprintf("(Array %s Bool)", ks), "")
+					}
+				}
+			}
 			add(q("E iterpos"), "Int", "")
 		case *ssa.Call:
 			c := i.Common()
@@ -574,8 +582,11 @@ func (f *Frame) rangeInit(i *ssa.Range, reach string, h *Heap) Val {
 	ref := f.newRef(h)
 	x := f.val(i.X)
 	f.vc.setComp(h, q("E iterpos"), "Int", store2(f.vc.cur(h, q("E iterpos"), "Int"), ref, "0", "0"))
-	if _, ok := i.X.Type().Underlying().(*types.Map); ok {
-		f.vc.errorf("%s: range over map is outside the supported subset", f.fn.Name())
+	if mt, ok := i.X.Type().Underlying().(*types.Map); ok {
+		// iteration over a map: the iterator carries the set of keys already visited
+		ks, _ := f.mapSorts(mt)
+		comp, srt := q("E mapvisited "+ks), fmt.Sprintf("(Array %s Bool)", ks)
+		f.vc.setComp(h, comp, srt, store2(f.vc.cur(h, comp, srt), ref, "0", fmt.Sprintf("((as const (Array %s Bool)) false)", ks)))
 	}
 	return Val{S: "Ptr", E: mkptr(ref, "0", "0"), T: i.Type(), Tuple: []Val{x}}
 }
@@ -584,8 +595,13 @@ func (f *Frame) rangeNext(i *ssa.Next, reach string, h *Heap) Val {
 	it := f.val(i.Iter)
 	vc := f.vc
 	res := Val{S: "Tuple", T: i.Type()}
+	if !i.IsString && len(it.Tuple) > 0 {
+		if mt, ok := it.Tuple[0].T.Underlying().(*types.Map); ok {
+			return f.mapNext(i, it, mt, reach, h)
+		}
+	}
 	if !i.IsString || len(it.Tuple) == 0 {
-		vc.errorf("%s: range over map is outside the supported subset", f.fn.Name())
+		vc.errorf("%s: range over this kind of value is outside the supported subset", f.fn.Name())
 		return f.freshVal("next", i.Type(), h)
 	}
 	s := it.Tuple[0].E
@@ -600,6 +616,30 @@ func (f *Frame) rangeNext(i *ssa.Next, reach string, h *Heap) Val {
 	vc.assume(implies(ok, app("<=", app("+", pos, w), app("slen", s))))
 	vc.assume(fmt.Sprintf("(forall ((j!u Int)) (! (=> (and (< %s j!u) (< j!u (+ %s %s))) (>= (sat %s j!u) 128)) :pattern ((sat %s j!u))))", pos, pos, w, s, s))
 	res.Tuple = []Val{{S: "Bool", E: ok, T: types.Typ[types.Bool]}, {S: "Int", E: pos, T: types.Typ[types.Int]}, {S: "Int", E: r, T: types.Typ[types.Rune]}}
+	return res
+}
+
+// mapNext: one step of a map iteration. Go visits every key present exactly once in an
+// unspecified order (the map is assumed not to be modified by the loop body): the step yields
+// some key of the map that has not been visited, and ends exactly when there is none.
+func (f *Frame) mapNext(i *ssa.Next, it Val, mt *types.Map, reach string, h *Heap) Val {
+	vc := f.vc
+	ks, vs := f.mapSorts(mt)
+	comp, srt := q("E mapvisited "+ks), fmt.Sprintf("(Array %s Bool)", ks)
+	m := it.Tuple[0].E
+	dom, val := f.mapCur(mt, h)
+	curDom := app("select", dom, m)
+	visited := vc.define(f.prefix+"visited", srt, sel2(vc.cur(h, comp, srt), pref(it.E), "0"))
+	ok := vc.fresh(f.prefix+"mapok", "Bool")
+	k := vc.fresh(f.prefix+"mapkey", ks)
+	present := func(key string) string { return and(not(eq(m, "0")), app("select", curDom, key)) }
+	vc.assume(implies(ok, and(present(k), not(app("select", visited, k)))))
+	vc.assume(implies(not(ok), fmt.Sprintf("(forall ((k!m %s)) (! (=> %s (select %s k!m)) :pattern ((select %s k!m)) :pattern ((select %s k!m))))", ks, present("k!m"), visited, visited, curDom)))
+	vc.setComp(h, comp, srt, store2(vc.cur(h, comp, srt), pref(it.E), "0", ite(ok, app("store", visited, k, "true"), visited)))
+	v := vc.define(f.prefix+"mapval", vs, app("select", app("select", val, m), k))
+	res := Val{S: "Tuple", T: i.Type()}
+	tt := i.Type().(*types.Tuple)
+	res.Tuple = []Val{{S: "Bool", E: ok, T: types.Typ[types.Bool]}, f.en.mkVal(tt.At(1).Type(), k), f.en.mkVal(tt.At(2).Type(), v)}
 	return res
 }
 
